@@ -178,7 +178,7 @@ theorem inv_cover {c : Ctx} {s : Store} {chain rest : List Block} {b : Block} {r
     chainValid_prefix (a := chain) (b := b :: rest) (by rw [← hnode]; exact hvalid)
   have hG := glob_bookOf (p := c.p) hvc
   have F : FilterCtx c s ready chain rest b (bookOf c.p c.own chain) :=
-    ⟨hnode, hvalid, hAR, hG, hI.agree.credits⟩
+    ⟨hnode, hvalid, hAR, hG, fun k h => by rw [hI.agree.credits k]; exact h⟩
   have hVb := F.valid_block
   obtain ⟨recs', hf', hM⟩ := filterTxs_block F hVb
   rw [hf] at hf'
